@@ -1,9 +1,10 @@
 import ctypes
 import dis
 import gc
+import struct
 import sys
 from types import FrameType
-from typing import List, Tuple, Type, cast
+from typing import List, Optional, Tuple, Type, cast
 from ._lowlevel import FrameDetails
 import os
 
@@ -17,6 +18,15 @@ else:
 
 
 wordsize = ctypes.sizeof(ctypes.c_size_t)
+
+
+def _is_on_current_stack(frame: FrameType) -> bool:
+    current: Optional[FrameType] = sys._getframe(1)
+    while current is not None:
+        if current is frame:
+            return True
+        current = current.f_back
+    return False
 
 
 class InconsistentSnapshot(AssertionError):
@@ -148,10 +158,21 @@ def inspect_frame(frame: FrameType) -> FrameDetails:
     # slot is read (which takes a reference) immediately after checking
     # that f_lasti is still the same, with no call in between. This might
     # require more than one attempt.
+    combined_base = id(frame) + blockstack_offset - 16
+    combined_raw = (ctypes.c_char * (id(frame) + end_offset - combined_base)).from_address(
+        combined_base
+    )
     for _ in range(10):
-        # (ctypes copies the bytes when a structure is constructed from
-        # another: one C call)
-        snapshot = BlockStack.from_buffer_copy(blockstack_raw)
+        # (one C call copies the bytes: f_lasti, the block stack and what
+        # follows it in the frame object, the local variables and the value
+        # stack - as addresses, nothing is dereferenced)
+        combined = bytes(combined_raw)
+        snapshot = BlockStack.from_buffer_copy(combined)
+        slot_addresses = struct.unpack_from(
+            f"{co.co_stacksize}N",
+            combined,
+            id(frame) + stack_start_offset - combined_base,
+        )
         _verif_hook("inspect_frame:lasti", frame)
         executing = frame_raw.f_stacktop == 0
         del details.blocks[:]
@@ -214,6 +235,58 @@ def inspect_frame(frame: FrameType) -> FrameDetails:
                     id(frame) + stack_start_offset
                 )
                 details.stack = []
+                foreign_addresses = None
+                if not _is_on_current_stack(frame):
+                    # The frame is executing on another thread (or in a
+                    # greenlet that isn't the current one). Taking a
+                    # reference through a pointer that we read from it is
+                    # only safe if the frame cannot have moved on since we
+                    # checked, and on these versions of Python there is no
+                    # way to check and read in one step: the interpreter may
+                    # switch threads at (3.10) any jump that is taken, (3.9)
+                    # any instruction. A slot that the frame has popped
+                    # in the meantime still holds the address of an object
+                    # that may have been freed. So don't follow the addresses
+                    # at all; ask the garbage collector for the live objects
+                    # that have them. (Everything a 'with' statement keeps
+                    # on the stack is tracked by it: methods, bound or
+                    # builtin, and other callable objects.)
+                    _verif_hook("inspect_frame:slot", frame, 0)
+                    addresses = slot_addresses[:stack_len]
+                    previous: Optional[List[object]] = None
+                    for _round in range(5):
+                        wanted = set(addresses)
+                        wanted.discard(0)
+                        live = {}
+                        if wanted:
+                            for candidate in gc.get_objects():
+                                if id(candidate) in wanted:
+                                    live[id(candidate)] = candidate
+                        resolved = [live.get(addr) for addr in addresses]
+                        # (If the frame has been round a loop meanwhile, it's
+                        # at the same position with other objects.)
+                        again = struct.unpack_from(
+                            f"{stack_len}N",
+                            bytes(combined_raw),
+                            id(frame) + stack_start_offset - combined_base,
+                        )
+                        if not (again == addresses):
+                            raise InconsistentSnapshot
+                        # An address that the collector doesn't know is that
+                        # of an object it doesn't track (an int, a range
+                        # iterator) - or of one that was freed just now, and
+                        # whose address is in use again by the time we
+                        # compare. Only believe what we see twice in a row.
+                        if previous is not None and all(
+                            one is other for one, other in zip(previous, resolved)
+                        ):
+                            break
+                        previous = resolved
+                    else:
+                        raise InconsistentSnapshot
+                    details.stack = resolved
+                    foreign_addresses = addresses
+                    stack_len = 0  # (nothing left for the loop below to do)
                 for i in range(stack_len):
                     _verif_hook("inspect_frame:slot", frame, i)
                     # (f_lasti alone won't do: a frame that is left by an
@@ -243,6 +316,17 @@ def inspect_frame(frame: FrameType) -> FrameDetails:
                     raise InconsistentSnapshot
                 if not (f_state.value == snapshot.f_state):
                     raise InconsistentSnapshot
+                if foreign_addresses is not None:
+                    # (We hold references to the objects now, so nothing else
+                    # can have come to live at their addresses: if the slots
+                    # still say what they said, they mean these objects.)
+                    final = struct.unpack_from(
+                        f"{len(foreign_addresses)}N",
+                        bytes(combined_raw),
+                        id(frame) + stack_start_offset - combined_base,
+                    )
+                    if not (final == foreign_addresses):
+                        raise InconsistentSnapshot
             else:
                 # Suspended: map the addresses on the stack back to actual
                 # objects with gc.get_referents(), which is the safest way.
@@ -270,11 +354,14 @@ def inspect_frame(frame: FrameType) -> FrameDetails:
                     raise InconsistentSnapshot
 
         except AssertionError:
+            now = bytes(combined_raw)
+            stack_at = id(frame) + stack_start_offset - combined_base
             if (
-                f_lasti.value == snapshot.f_lasti
-                and f_iblock.value == snapshot.f_iblock
-                and f_state.value == snapshot.f_state
+                now[: ctypes.sizeof(BlockStack)] == combined[: ctypes.sizeof(BlockStack)]
+                and now[stack_at:] == combined[stack_at:]
             ):
+                # neither the position, nor the blocks, nor anything on the
+                # value stack is different from what we started with
                 raise
             # otherwise this was probably a concurrent modification, try again
             continue
